@@ -499,6 +499,41 @@ def rule_dom(fx, cg, v):
     v.expect_min('R-DOM', 20, 'run_op, disconnect_op, mqtt_client sites × instantiations')
 
 
+def rule_detached_stream(fx, v):
+    """shutdown_op (non-socket streams) moves the old stream out of the service before waiting for the
+    lock; from then on client_service::cancel() can no longer reach it, so the operation itself must
+    close it on EVERY path that ends the operation — otherwise a read still pending on it (and with it
+    the read loop and async_run) never completes."""
+    from reqops import op_paths
+    n = 0
+    for f in fx.functions(cls='shutdown_op', name='operator()'):
+        if f.lam:
+            continue
+        carried = [q for q in f.params if q.get('tcls') == 'shared_ptr']
+        if not carried:
+            continue
+        v.saw(f)
+        for pi, p in enumerate(op_paths(fx, f)):
+            end = p.end()
+            if end[0] != 'complete':
+                continue
+            n += 1
+            closed = False
+            for c in p.calls('close'):
+                if p.index(c) > p.index(end[1]):
+                    continue
+                o = p.origin(c, c.x.get('obj'))
+                if contains(o, lambda m: m.get('k') == 'call' and callee_name(m) == 'lowest_layer') and contains(
+                        o, lambda m: m.get('k') == 'ref' and m.get('dk') == 'param' and m.get('d') == carried[0]['d']):
+                    closed = True
+            v.check(closed, 'R-DRAIN-S', 'shutdown_op::operator()(%s)%s:path%d [%s]' % (f.tag, f.inst()[:40], pi, f.tu),
+                    'the stream detached from the service is closed before the operation completes (%s)' % closed,
+                    key='C05:R-DRAIN-S:shutdown_op::(%s)' % f.tag, where=f.file)
+    if n < 4:
+        raise AnalysisBroken('shutdown_op: only %d completing paths with a detached stream found '
+                             '(TLS/WebSocket drivers not instantiated?)' % n)
+
+
 def run(fx, tier):
     v = Verdict('C05', tier)
     v.rule('R-LINEAR', 'every path through every entry point of an operation class consumes the operation '
@@ -508,12 +543,14 @@ def run(fx, tier):
     v.rule('R-DRAIN-M', 'every handler-parking member under client_service is drained from cancel() or waits only '
            'inside a wait_for_one group with a drained sibling')
     v.rule('R-DRAIN-Q', 'queued type-erased handlers are invoked only on elements that left their container')
+    v.rule('R-DRAIN-S', 'a stream detached from the service by shutdown_op is closed on every path that ends that operation')
     v.rule('R-DOM', 'run_op / terminal disconnect / mqtt_client cancel+dup structure')
     cg = CallGraph(fx)
     rule_linear(fx, v)
     rule_noinline(fx, cg, v)
     rule_drain_members(fx, cg, v)
     rule_drain_queue(fx, v)
+    rule_detached_stream(fx, v)
     rule_dom(fx, cg, v)
     v.assumptions = [
         'Boost.Asio: an initiation invokes its handler exactly once and never inline; post/defer never run inline; '
